@@ -1,6 +1,7 @@
 import BM.Basic
 import BM.Regex
 import BM.Css
+import BM.RecCheck
 /-
   "Go-lite": the small imperative fragment of Go in which css/handlers.go is written,
   as a Lean data type plus an interpreter.  The extractor (go/cmd/extract/handlers.go)
@@ -95,27 +96,9 @@ def splitValues (toLower : Bytes → Bytes) (value : Bytes) : List Bytes :=
 def trimSuffix (s suf : Bytes) : Bytes :=
   if hasSuffix suf s then s.take (s.length - suf.length) else s
 
-/-- `recursiveCheck(value, funcs)`: can `value` be cut into consecutive groups, each of
-    which (joined by a space) is accepted by one of the functions?  Computed bottom-up over
-    suffixes (the Go code recurses; the boolean is the same).  `table` holds the answer for
-    suffixes of length 0 … k-1 (longest first); `sufs` are the suffixes still to do, shortest
-    first. -/
-def recStep (accept : Bytes → Bool) (suffix : List Bytes) (table : List Bool) : Bool :=
-  -- table.get i = answer for the suffix obtained by dropping (i+1) more… see recCheck
-  (List.range suffix.length).any fun i =>
-    accept (joinBytes [32] (suffix.take (i + 1))) &&
-      (suffix.length - (i + 1) == 0 || table.getD (suffix.length - (i + 1)) false)
-
-/-- `answers[k]` = result for the suffix of length `k` (index 0 unused: an empty rest is
-    handled by the `== 0` test, and `recursiveCheck([])` itself is false). -/
-def recTable (accept : Bytes → Bool) (vals : List Bytes) : Nat → List Bool
-  | 0 => [false]
-  | k + 1 =>
-    let t := recTable accept vals k
-    t ++ [recStep accept (vals.drop (vals.length - (k + 1))) t]
-
-def recCheck (accept : Bytes → Bool) (vals : List Bytes) : Bool :=
-  (recTable accept vals vals.length).getD vals.length false
+/- `recursiveCheck` / `recursiveCheckFrom` are modelled as the Go code runs them in BM/RecCheck.lean
+   (`recursiveCheck`, with its `failed` table and a count of handler invocations); what they decide
+   and what they cost is proved in Proofs/RecCheck. -/
 
 /-! ### regexp methods on byte strings -/
 
@@ -245,8 +228,7 @@ def evalE (c : Ctx) : Nat → Env → Expr → Option Val
         | "append", [.strs l, .str x] => some (.strs (l ++ [x]))
         | "appendSpread", [.strs l, .strs xs] => some (.strs (l ++ xs))
         | "recursiveCheck", [.strs vals, .funcs fs] =>
-          let accept (v : Bytes) : Bool := fs.any fun fn => callFn c fuel fn v == some true
-          some (.bool (recCheck accept vals))
+          some (.bool (recursiveCheck (fs.map fun fn v => callFn c fuel fn v == some true) vals).1)
         | _, _ =>
           if f == "multiSplit" then
             match vs with
